@@ -5,6 +5,7 @@ wheel: for EVERY configuration (limit absent / ≤ 0 / positive, any LRU state, 
 SetWithExpire / Set / Take / Del reach the wheel in program order and end with the request that decides the key.
 -/
 import GoZero.C12.ProofsSchedW
+import GoZero.C12.Props
 namespace GoZero.C12
 
 /-! ### (1) one goroutine per tick, each walking a slice of its own -/
@@ -85,6 +86,20 @@ theorem recover_around_the_loop_loses_the_rest_on_panic :
       [.spawn [(1, 10), (2, 20), (3, 30)], .run 0, .run 0, .run 0]).out = [(1, 10), (2, 20)]
     ∧ (Dl.runO .perTask (fun p => if p.1 = 2 then .panic else .ret) {}
       [.spawn [(1, 10), (2, 20), (3, 30)], .run 0, .run 0, .run 0]).out = [(1, 10), (2, 20), (3, 30)] := by decide
+
+/-- [wheel + delivery composed: every wheel size, every history, every interleaving of ticks and callback goroutines,
+callbacks that return or panic]  if the batches handed to runTasks are what the wheel's operations produce, then,
+once the callback goroutines are done, every pair has reached a callback exactly as often as the TIMER TABLE says it
+was due (at its floor(d/interval)-th tick, with the most recently set value), and never more often at any moment. -/
+theorem every_due_pair_reaches_a_callback_exactly_once (n : Nat) (hn : 0 < n) (ops : List Op) (oc : Pair → Outcome)
+    (hno : ∀ q, oc q ≠ .goexit) (evs : List DEv) (hb : batches evs = run (TW.init n) ops) (p : Pair) :
+    (((Dl.runO .perTask oc {} evs).finished = true →
+        ((Dl.runO .perTask oc {} evs).out).count p = ((Spec.run [] ops).flatten).count p))
+    ∧ ((Dl.run {} evs).out).count p ≤ ((Spec.run [] ops).flatten).count p := by
+  rw [← tw_refines_timer_table n hn ops, ← hb]
+  exact ⟨fun hfin => panicking_callback_affects_no_other_timer oc hno evs p hfin, deliver_fresh_never_more evs p⟩
+
+example : batches [.spawn [], .spawn [(1, 7)], .run 1] = run (TW.init 3) [.set 1 7 1, .tick] := by decide
 
 /-! ### (2) the Cache with `WithLimit` -/
 
